@@ -19,6 +19,8 @@ func simCases(seed uint64, n int, salt uint64, encrypted bool) []core.Case {
 		for _, a := range simAnchors {
 			cs = append(cs, core.MkCase("sim/"+a+"/"+cfg, 1, sim.Params{Config: cfg, Store: "badger", Replicas: 3, Recipe: a}))
 		}
+		// one anchor per configuration with the last replica fed through the event bus
+		cs = append(cs, core.MkCase("sim/"+simAnchors[0]+"/"+cfg+"/bus", 1, sim.Params{Config: cfg, Store: "badger", Replicas: 3, Recipe: simAnchors[0], Bus: true}))
 	}
 	if encrypted {
 		// single-writer histories over document-level encrypted documents (C04 only)
@@ -36,6 +38,7 @@ func simCases(seed uint64, n int, salt uint64, encrypted bool) []core.Case {
 		} else {
 			p.Recipe = "genesis-first"
 		}
+		p.Bus = i%4 == 1 && p.Config != "uniq" // a quarter of the histories: last replica fed through the event bus
 		cs = append(cs, core.MkCase("sim/"+p.Recipe+"/"+p.Config, rng.Uint64(), p))
 		if encrypted && i%8 == 0 {
 			e := sim.Params{Config: "encrypted", Store: "badger", Replicas: 1, Steps: 8 + rng.IntN(10), Recipe: "genesis-first"}
@@ -53,7 +56,7 @@ func tierN(tier string, quick, thorough int) int {
 }
 
 var simFloors = []string{"shape_frontier_heights_distinct", "shape_tie_equal_height", "shape_tie_with_null",
-	"shape_redelivered_ancestor", "shape_three_way_branch", "shape_merge_unknown_doc", "nontrivial_histories"}
+	"shape_redelivered_ancestor", "shape_three_way_branch", "shape_merge_unknown_doc", "nontrivial_histories", "deliveries_through_the_event_bus"}
 
 func init() {
 	core.Register(&core.Check{
